@@ -84,6 +84,8 @@ pub struct CaseOut {
 	pub counters: BTreeMap<String, u64>,
 	/// distinct strings observed (e.g. error messages, panic sites), by kind
 	pub observed: BTreeMap<String, BTreeSet<String>>,
+	/// a monitored thread is stuck: the worker must exit after logging this case
+	pub abandon_worker: bool,
 }
 
 impl CaseOut {
@@ -201,19 +203,29 @@ pub fn norm_loc(loc: &str) -> String {
 }
 
 pub fn norm_msg(msg: &str) -> String {
-	// keep the shape, drop concrete numbers
+	// keep the shape, drop concrete numbers (decimal runs -> N, 0x.. -> 0xN)
+	let chars: Vec<char> = msg.chars().take(200).collect();
 	let mut out = String::new();
-	let mut last_digit = false;
-	for c in msg.chars().take(160) {
-		if c.is_ascii_digit() {
-			if !last_digit {
-				out.push('N');
+	let mut i = 0;
+	while i < chars.len() {
+		let c = chars[i];
+		if c == '0' && i + 1 < chars.len() && chars[i + 1] == 'x' {
+			out.push_str("0xN");
+			i += 2;
+			while i < chars.len() && chars[i].is_ascii_hexdigit() {
+				i += 1;
 			}
-			last_digit = true;
-		} else {
-			last_digit = false;
-			out.push(if c == '\n' { ' ' } else { c });
+			continue;
 		}
+		if c.is_ascii_digit() {
+			out.push('N');
+			while i < chars.len() && chars[i].is_ascii_digit() {
+				i += 1;
+			}
+			continue;
+		}
+		out.push(if c == '\n' { ' ' } else { c });
+		i += 1;
 	}
 	out
 }
@@ -224,7 +236,9 @@ pub enum Watched<T> {
 	Done(T),
 	/// the thread was observed sleeping in the kernel without consuming input
 	Sleeping(String),
-	/// deadline passed but no logical evidence of a hang
+	/// the thread burned CPU without the progress counter moving
+	Spinning(String),
+	/// hard wall-clock cap passed but no logical evidence of a hang
 	Timeout(String),
 }
 
@@ -233,11 +247,30 @@ fn thread_syscall(tid: i32) -> Option<i64> {
 	s.split_whitespace().next()?.parse::<i64>().ok()
 }
 
-/// Run `f` on a fresh thread. If it does not finish within `deadline`, sample
-/// the thread's current syscall and the progress counter: a thread that sits
-/// in (clock_)nanosleep over three samples while `progress()` does not move is
-/// a hang *by logical evidence*; anything else is only a timeout.
-pub fn watched<T: Send + 'static>(f: impl FnOnce() -> T + Send + 'static, progress: impl Fn() -> usize, deadline: Duration) -> Watched<T> {
+/// CPU time (user+system) consumed by a thread, in seconds.
+fn thread_cpu_s(tid: i32) -> Option<f64> {
+	let s = fs::read_to_string(format!("/proc/self/task/{}/stat", tid)).ok()?;
+	let rest = &s[s.rfind(')')? + 2..];
+	let f: Vec<&str> = rest.split_whitespace().collect();
+	// after "pid (comm)": state is f[0]; utime = field 14 overall = f[11], stime = f[12]
+	let ut: f64 = f.get(11)?.parse().ok()?;
+	let st: f64 = f.get(12)?.parse().ok()?;
+	Some((ut + st) / 100.0)
+}
+
+pub const SPIN_CPU_S: f64 = 20.0;
+
+/// Run `f` on a fresh thread and wait for it. Verdicts are based on logical
+/// evidence, not on wall-clock alone: after `grace`, the supervisor samples
+/// the thread every 1.2 s. *Sleeping*: three consecutive samples show the
+/// thread in (clock_)nanosleep while `progress()` (bytes/read calls delivered
+/// by the instrumented source) does not move. *Spinning*: the thread has
+/// consumed >= SPIN_CPU_S seconds of CPU time (work done, independent of
+/// machine load) and `progress()` was static over the last three samples.
+/// Otherwise keep waiting up to `cap`, whose expiry is only a *timeout*
+/// (inconclusive). The thread cannot be cancelled: after anything but `Done`
+/// the caller must let the worker process exit.
+pub fn watched<T: Send + 'static>(f: impl FnOnce() -> T + Send + 'static, progress: impl Fn() -> usize, grace: Duration, cap: Duration) -> Watched<T> {
 	use std::sync::mpsc;
 	let (tx, rx) = mpsc::channel();
 	let (tid_tx, tid_rx) = mpsc::channel();
@@ -252,37 +285,56 @@ pub fn watched<T: Send + 'static>(f: impl FnOnce() -> T + Send + 'static, progre
 		Err(e) => return Watched::Timeout(format!("spawn failed: {}", e)),
 	};
 	let tid = tid_rx.recv_timeout(Duration::from_secs(5)).unwrap_or(-1);
-	match rx.recv_timeout(deadline) {
+	let t0 = Instant::now();
+	match rx.recv_timeout(grace) {
 		Ok(v) => {
 			let _ = h.join();
-			Watched::Done(v)
+			return Watched::Done(v);
 		}
 		Err(mpsc::RecvTimeoutError::Disconnected) => {
-			// thread ended without sending: it panicked outside guard()
 			let _ = h.join();
-			Watched::Timeout("worker thread died without a result".into())
+			return Watched::Timeout("monitored thread died without a result".into());
 		}
-		Err(mpsc::RecvTimeoutError::Timeout) => {
-			let mut sleeping = 0;
-			let p0 = progress();
-			let mut calls = vec![];
-			for _ in 0..3 {
-				if let Ok(v) = rx.recv_timeout(Duration::from_millis(1200)) {
-					let _ = h.join();
-					return Watched::Done(v);
-				}
-				let sc = thread_syscall(tid);
-				calls.push(sc);
-				if sc == Some(230) || sc == Some(35) {
-					sleeping += 1;
-				}
+		Err(mpsc::RecvTimeoutError::Timeout) => {}
+	}
+	let mut sleeping = 0;
+	let mut static_samples = 0;
+	let mut last = progress();
+	loop {
+		match rx.recv_timeout(Duration::from_millis(1200)) {
+			Ok(v) => {
+				let _ = h.join();
+				return Watched::Done(v);
 			}
-			let moved = progress() != p0;
-			if sleeping == 3 && !moved {
-				Watched::Sleeping(format!("thread {} in nanosleep on 3 samples 1.2s apart, source progress static at {}", tid, p0))
-			} else {
-				Watched::Timeout(format!("deadline {:?} passed; syscalls {:?}; progress moved: {}", deadline, calls, moved))
+			Err(mpsc::RecvTimeoutError::Disconnected) => {
+				let _ = h.join();
+				return Watched::Timeout("monitored thread died without a result".into());
 			}
+			Err(mpsc::RecvTimeoutError::Timeout) => {}
+		}
+		let now = progress();
+		if now == last {
+			static_samples += 1;
+		} else {
+			static_samples = 0;
+			sleeping = 0;
+		}
+		last = now;
+		let sc = thread_syscall(tid);
+		if sc == Some(230) || sc == Some(35) {
+			sleeping += 1;
+		} else {
+			sleeping = 0;
+		}
+		if sleeping >= 3 && static_samples >= 3 {
+			return Watched::Sleeping(format!("thread {} in nanosleep on 3 consecutive samples 1.2 s apart; source progress static at {}", tid, now));
+		}
+		let cpu = thread_cpu_s(tid).unwrap_or(0.0);
+		if cpu >= SPIN_CPU_S && static_samples >= 3 {
+			return Watched::Spinning(format!("thread {} used {:.1} s of CPU while source progress stayed at {}", tid, cpu, now));
+		}
+		if t0.elapsed() > cap {
+			return Watched::Timeout(format!("wall-clock cap {:?} passed; cpu {:.1}s; last syscall {:?}; progress {}", cap, cpu, sc, now));
 		}
 	}
 }
@@ -386,6 +438,12 @@ pub fn worker_main(mon: &dyn Monitor, tier: Tier, seed: u64, shard: usize, nshar
 				"{}",
 				json!({"t": "E", "i": idx, "evals": out.evals, "classes": out.classes, "viol": viol, "inc": out.inconclusive, "sample": out.sample, "counters": out.counters, "observed": observed})
 			);
+			if out.abandon_worker {
+				// a thread of this process is stuck in the library under test
+				let _ = writeln!(log, "{}", json!({"t": "RESPAWN", "next": idx + nshards}));
+				let _ = log.flush();
+				std::process::exit(0);
+			}
 		}
 		idx += nshards;
 	}
@@ -418,21 +476,26 @@ fn read_progress(id: &str, shard: usize) -> Option<(u64, u64)> {
 	Some((u64::from_le_bytes(b[..8].try_into().unwrap()), u64::from_le_bytes(b[8..16].try_into().unwrap())))
 }
 
-fn shard_state(id: &str, shard: usize) -> (bool, Option<usize>) {
-	// returns (done, in-flight case index if a B has no E)
-	let Ok(f) = File::open(work_dir(id).join(format!("shard-{}.log", shard))) else { return (false, None) };
+fn shard_state(id: &str, shard: usize) -> (bool, Option<usize>, Option<usize>) {
+	// returns (done, in-flight case index if a B has no E, respawn-from request)
+	let Ok(f) = File::open(work_dir(id).join(format!("shard-{}.log", shard))) else { return (false, None, None) };
 	let mut open: Option<usize> = None;
 	let mut done = false;
+	let mut respawn: Option<usize> = None;
 	for line in BufReader::new(f).lines().map_while(|l| l.ok()) {
 		let Ok(v) = serde_json::from_str::<Value>(&line) else { continue };
 		match v["t"].as_str() {
-			Some("B") => open = v["i"].as_u64().map(|x| x as usize),
+			Some("B") => {
+				open = v["i"].as_u64().map(|x| x as usize);
+				respawn = None;
+			}
 			Some("E") => open = None,
+			Some("RESPAWN") => respawn = v["next"].as_u64().map(|x| x as usize),
 			Some("DONE") => done = true,
 			_ => {}
 		}
 	}
-	(done, open)
+	(done, open, respawn)
 }
 
 pub fn run_check(mon: &dyn Monitor, tier: Tier, seed: u64) -> i32 {
@@ -451,7 +514,7 @@ pub fn run_check(mon: &dyn Monitor, tier: Tier, seed: u64) -> i32 {
 	let mut respawns = 0usize;
 	while !slots.is_empty() {
 		std::thread::sleep(Duration::from_millis(20));
-		let mut next = vec![];
+		let mut next_slots = vec![];
 		for mut s in slots.drain(..) {
 			match s.child.try_wait() {
 				Ok(None) => {
@@ -460,12 +523,20 @@ pub fn run_check(mon: &dyn Monitor, tier: Tier, seed: u64) -> i32 {
 						let _ = s.child.wait();
 						agg.inconclusive.push(format!("shard {}: wall-clock watchdog {:?} fired (inconclusive, not a violation)", s.shard, deadline));
 					} else {
-						next.push(s);
+						next_slots.push(s);
 					}
 				}
 				Ok(Some(status)) => {
-					let (done, open) = shard_state(id, s.shard);
+					let (done, open, respawn) = shard_state(id, s.shard);
 					if done {
+						continue;
+					}
+					if let (None, Some(next)) = (open, respawn) {
+						// the worker retired itself because a monitored thread was stuck
+						respawns += 1;
+						if respawns < 2000 {
+							next_slots.push(Slot { shard: s.shard, child: spawn_worker(mon, tier, seed, s.shard, nshards, next), started: Instant::now() });
+						}
 						continue;
 					}
 					// the worker died mid-case
@@ -497,7 +568,7 @@ pub fn run_check(mon: &dyn Monitor, tier: Tier, seed: u64) -> i32 {
 					}
 					respawns += 1;
 					if respawns < 2000 {
-						next.push(Slot { shard: s.shard, child: spawn_worker(mon, tier, seed, s.shard, nshards, i + 1), started: Instant::now() });
+						next_slots.push(Slot { shard: s.shard, child: spawn_worker(mon, tier, seed, s.shard, nshards, i + 1), started: Instant::now() });
 					} else {
 						agg.inconclusive.push("too many worker deaths; giving up on respawn".into());
 					}
@@ -505,7 +576,7 @@ pub fn run_check(mon: &dyn Monitor, tier: Tier, seed: u64) -> i32 {
 				Err(e) => agg.inconclusive.push(format!("wait error: {}", e)),
 			}
 		}
-		slots = next;
+		slots = next_slots;
 	}
 	// read the logs
 	for shard in 0..nshards {
